@@ -32,7 +32,7 @@ type CaseC09 struct {
 	Tail   int        `json:"tail"`    // decoded path: 0xFF bytes after the section in the decoder's input
 }
 
-const c09Kinds = 40
+const c09Kinds = 42
 
 func genC09(t *rapid.T) CaseC09 {
 	c := CaseC09{}
@@ -167,7 +167,30 @@ type c09State struct {
 	m        ref.Splice
 	adjusted uint64 // the signal's adjusted PTS as stored by the library
 	sig      scte35.SCTE35
+	// arena is the caller-side buffer the byte slices given to setters are cut from, one directly
+	// behind the other: each slice's spare capacity is the memory of the slices handed over later
+	arena, arenaKeep []byte
 }
+
+// window copies b to the end of the arena and returns that window of it
+// (len(b) bytes, capacity reaching to the end of the arena).
+func (st *c09State) window(b []byte) []byte {
+	if st.arena == nil {
+		st.arena = make([]byte, 0, 1<<15)
+	}
+	if len(st.arena)+len(b)+8 > cap(st.arena) {
+		return clone(b)
+	}
+	off := len(st.arena)
+	st.arena = append(st.arena, b...)
+	w := st.arena[off:len(st.arena)]
+	st.arena = append(st.arena, 0xC5, 0xC5, 0xC5, 0xC5) // a little caller data behind the last window as well
+	st.arenaKeep = append(st.arenaKeep[:0], st.arena...)
+	return w
+}
+
+// arenaIntact reports whether the caller's buffer still holds what the caller put there.
+func (st *c09State) arenaIntact() bool { return bytes.Equal(st.arena, st.arenaKeep) }
 
 func (st *c09State) cmdPTSField() uint64 {
 	switch st.m.Cmd {
@@ -407,7 +430,7 @@ func c09Apply(st *c09State, mu MutC09) string {
 			ty = 0x0C
 		}
 		d.SetUPIDType(scte35.SegUPIDType(ty))
-		d.SetUPID(clone(mu.Data))
+		d.SetUPID(st.window(mu.Data))
 		md.UPIDType, md.UPID, md.MID = ty, clone(mu.Data), []ref.SegUPID{}
 	case 33:
 		d.SetUPIDType(0x0D)
@@ -416,7 +439,7 @@ func c09Apply(st *c09State, mu MutC09) string {
 		for i := 0; i < int(mu.V%3); i++ {
 			u := scte35.CreateUPID()
 			u.SetUPIDType(scte35.SegUPIDType(byte(i + 1)))
-			u.SetUPID(clone(mu.Data))
+			u.SetUPID(st.window(mu.Data))
 			ms = append(ms, u)
 			md.MID = append(md.MID, ref.SegUPID{Type: byte(i + 1), Body: clone(mu.Data)})
 		}
@@ -434,10 +457,52 @@ func c09Apply(st *c09State, mu MutC09) string {
 			md.Comps = append(md.Comps, ref.SegOffset{Tag: byte(0x40 + i), Offset: off})
 		}
 		d.SetComponents(cs)
+	case 40:
+		// the descriptor's own component list handed back in another order (reverse / rotate / first one repeated in front)
+		cs := d.Components()
+		if len(cs) != len(md.Comps) {
+			return ""
+		}
+		pc, pm := c09Permute(cs, md.Comps, int(mu.V%3))
+		d.SetComponents(pc)
+		md.Comps = pm
+	case 41:
+		if md.UPIDType != 0x0D {
+			return ""
+		}
+		us := d.MID()
+		if len(us) != len(md.MID) {
+			return ""
+		}
+		pu, pm := c09Permute(us, md.MID, int(mu.V%3))
+		d.SetMID(pu)
+		md.MID = pm
 	default:
 		return ""
 	}
 	return fmt.Sprintf("descriptor[%d].set#%d(%v,%#x)", mu.K, mu.Kind, mu.B, mu.V)
+}
+
+// c09Permute applies the same reordering to a list of library objects and to
+// the model's list: 0 reverse, 1 rotate left by one, 2 the first element once more in front.
+func c09Permute[A any, B any](a []A, b []B, how int) ([]A, []B) {
+	n := len(a)
+	pa, pb := make([]A, 0, n+1), make([]B, 0, n+1)
+	switch {
+	case n == 0:
+	case how == 0:
+		for i := n - 1; i >= 0; i-- {
+			pa, pb = append(pa, a[i]), append(pb, b[i])
+		}
+	case how == 1:
+		for i := 0; i < n; i++ {
+			pa, pb = append(pa, a[(i+1)%n]), append(pb, b[(i+1)%n])
+		}
+	default:
+		pa, pb = append(pa, a[0]), append(pb, b[0])
+		pa, pb = append(pa, a...), append(pb, b...)
+	}
+	return pa, pb
 }
 
 func c09Decodable(m *ref.Splice) bool {
@@ -458,7 +523,7 @@ func checkC09(c CaseC09, x *hx.Ctx) *hx.Failure {
 	switch c.Path {
 	case "api":
 		st.m = apiExpressible(c.Splice)
-		st.sig = buildSpliceAPI(&st.m, c.Noise)
+		st.sig = buildSpliceAPIAlloc(&st.m, c.Noise, st.window)
 		st.adjusted = (st.cmdPTSField() + st.m.Adj) & m33
 		if st.sig.Data() != nil {
 			return hx.Failf("data-before-update", "Data() of a freshly created signal is not empty before UpdateData()")
@@ -598,6 +663,9 @@ func c09VerifyEncoding(st *c09State, c CaseC09, what string) *hx.Failure {
 			return hx.Failf("getter-descriptor-backref", "descriptor %d does not refer back to its signal (%s)", k, what)
 		}
 	}
+	if !st.arenaIntact() {
+		return hx.Failf("setter-arg-memory-written", "the buffer the UPID slices given to SetUPID were cut from was modified by the library, at byte %d of %d (%s)", firstDiff(st.arena, st.arenaKeep), len(st.arena), what)
+	}
 	if st.sig.Tier() != em.Tier {
 		return hx.Failf("getter-tier", "Tier() = %#x, want %#x (%s)", st.sig.Tier(), em.Tier, what)
 	}
@@ -622,7 +690,7 @@ func c09VerifyEncoding(st *c09State, c CaseC09, what string) *hx.Failure {
 var propC09 = hx.Register(hx.Prop[CaseC09]{ID: "C09", Gen: genC09, Check: checkC09})
 
 func c09Rule() {
-	hx.Rec("C09").SetRule("cases: a reference-model signal (C08 generator; time-less time_signal / splice_insert forms added on the API path) realised either (api) through CreateSCTE35/Create*Command/CreateSegmentationDescriptor/CreateUPID/CreateComponentOffset and setters with a drawn selection of set-then-clear noise, out-of-width values and UPID-kind switching, or (decoded) by decoding the reference encoding; then a drawn history of 0..8 further setter calls out of 39 kinds (signal, command, descriptor, descriptor-list and command replacement) is applied to the library object and to the model. Oracle: UpdateData() = reference encoding of the model in the library's normal form, byte for byte (alignment-stuffing byte values masked); reference CRC residue 0; section_length consistent; Data() unchanged by setters and equal to the encoding afterwards; UpdateData twice and String() leave the bytes unchanged; descriptor getters reflect the setters; decoding the encoded bytes reports the model (when the decoder supports the form); with an empty history a decoded canonical section re-encodes to itself. Non-trivial: cancelled/component/immediate splice_insert, a field with a bit >= 32, >= 2 descriptor shapes or >= 2 descriptors, set-then-clear noise, or a flag cleared by a setter.",
+	hx.Rec("C09").SetRule("cases: a reference-model signal (C08 generator; time-less time_signal / splice_insert forms added on the API path) realised either (api) through CreateSCTE35/Create*Command/CreateSegmentationDescriptor/CreateUPID/CreateComponentOffset and setters with a drawn selection of set-then-clear noise, out-of-width values and UPID-kind switching, or (decoded) by decoding the reference encoding; then a drawn history of 0..8 further setter calls out of 41 kinds (signal, command, descriptor, descriptor-list and command replacement, a descriptor's own component / MID list handed back reordered; the byte slices given to SetUPID are adjacent windows of one caller buffer) is applied to the library object and to the model. Oracle: UpdateData() = reference encoding of the model in the library's normal form, byte for byte (alignment-stuffing byte values masked); reference CRC residue 0; section_length consistent; Data() unchanged by setters and equal to the encoding afterwards; UpdateData twice and String() leave the bytes unchanged; descriptor getters reflect the setters; decoding the encoded bytes reports the model (when the decoder supports the form); with an empty history a decoded canonical section re-encodes to itself. Non-trivial: cancelled/component/immediate splice_insert, a field with a bit >= 32, >= 2 descriptor shapes or >= 2 descriptors, set-then-clear noise, or a flag cleared by a setter.",
 		"foreign descriptors after a segmentation descriptor and splice_command_length 0xFFF are compared against the library's normal form (foreign first, real length)",
 		"after SetTypeID the sub-segment flag is re-set explicitly (undocumented interaction)",
 		"signals the decoder does not support (time-less forms) are checked against the reference encoder only")
